@@ -115,7 +115,10 @@ class Ctx:
         files = [os.path.join("cmd", "vh", f) for f in dict.fromkeys(files)]
         with Lock("go-" + sub):
             env = go_env(self.repo)
-            args = ["go", "build", "-tags", "verif", "-o", vh_path(self.prop)]
+            # the binary belongs to this run (its own directory): a concurrent run of the same check against
+            # another tree (VERIF_REPO) must not replace it between build and use
+            self.vh_bin = os.path.join(self.work, "vh-" + sub)
+            args = ["go", "build", "-tags", "verif", "-o", self.vh_bin]
             if os.path.realpath(self.repo) != "/repo":
                 mf = os.path.join(self.work, "go.mod")
                 txt = open(os.path.join(HARNESS, "go.mod")).read().replace("=> /repo", "=> " + self.repo)
@@ -188,7 +191,7 @@ class Ctx:
         os.makedirs(d, exist_ok=True)
         env = dict(os.environ)
         env.setdefault("GOMEMLIMIT", "6GiB")
-        rc, out = run([vh_path(self.prop), sub, "-dir", d] + extra_args, cwd=self.work, env=env, timeout=timeout,
+        rc, out = run([getattr(self, "vh_bin", None) or vh_path(self.prop), sub, "-dir", d] + extra_args, cwd=self.work, env=env, timeout=timeout,
                       limit_mem=True)
         return rc, out
 
@@ -294,7 +297,7 @@ class Ctx:
                 json.dump(rep, open(path, "w"), indent=1)
                 lines.append("VIOLATION property=%s replay=%s no-failing-input-found" % (self.prop, path))
             else:
-                rep.update({"kind": "failing-input", "ops": [v["op"]], "observed": v.get("out", ""),
+                rep.update({"kind": "failing-input", "ops": v.get("ops") or [v["op"]], "observed": v.get("out", ""),
                             "why": v.get("why", ""), "source": v.get("source", "")})
                 json.dump(rep, open(path, "w"), indent=1)
                 lines.append("VIOLATION property=%s replay=%s" % (self.prop, path))
